@@ -52,6 +52,41 @@ fn run<S: USet>(args: &[String]) -> i32 {
     profiles::run_profile(&mut e, profile, hists, steps);
     e.finish();
     drop(std::mem::replace(&mut e.out, Box::new(std::io::sink())));
+    if profile == "det" && args[6] != "-" {
+        // C17: the same histories replayed on another thread, after unrelated set activity there and here
+        let path2 = format!("{}.thread", args[6]);
+        let p2 = path2.clone();
+        let mut noise = S::new();
+        for k in 0..5000u64 {
+            noise.ins(k.wrapping_mul(0x9E3779B97F4A7C15) & S::max_elem());
+        }
+        let h = std::thread::spawn(move || {
+            let mut other = S::new();
+            for k in 0..3000u64 {
+                other.ins((k * 7919) & S::max_elem());
+                if k % 3 == 0 {
+                    other.rem((k * 31) & S::max_elem());
+                }
+            }
+            let out2: Box<dyn std::io::Write> = Box::new(std::io::BufWriter::new(std::fs::File::create(&p2).unwrap()));
+            let mut e2: Eng<S> = Eng::new(seed, mode, out2);
+            profiles::run_profile(&mut e2, "det", hists, steps);
+            e2.finish();
+            drop(std::mem::replace(&mut e2.out, Box::new(std::io::sink())));
+            e2.fails.len()
+        });
+        let f2 = h.join().unwrap();
+        drop(noise);
+        let a = std::fs::read(&args[6]).unwrap();
+        let b = std::fs::read(&path2).unwrap();
+        if a != b || f2 != e.fails.len() {
+            let at = a.iter().zip(b.iter()).position(|(x, y)| x != y).unwrap_or(a.len().min(b.len()));
+            let line = a[..at].iter().filter(|&&c| c == b'\n').count() + 1;
+            e.fail("C17", format!("the same history replayed on another thread after unrelated set activity differs from the first run at trace line {}", line));
+        }
+        e.bump("det:thread-replays");
+        let _ = std::fs::remove_file(&path2);
+    }
     for (k, v) in &e.stats {
         eprintln!("HSTAT {} {}", k, v);
     }
